@@ -4,6 +4,7 @@ mod engine;
 mod props;
 mod refcrypto;
 mod refpdf;
+mod reftab;
 
 use engine::{Ctx, Tier};
 use serde_json::Value;
